@@ -1,0 +1,5 @@
+//go:build !verif
+
+package tmi
+
+func verifTrace(*Kernel, string, *kState) {}
